@@ -208,6 +208,41 @@ func runReconfigHistory(c *Ctx, kind string, prev []rune, ops []cfgOp, input []r
 	c.model(tokcLine(kind, 0, ops, input), showTks(got), "model")
 }
 
+// the same scanner object handed to the tokenizer again after a rewind: a second pass, a pass after an abandoned one
+func runSameScanner(c *Ctx, kind string, opts int, input []rune) {
+	op := fmt.Sprintf("samesc %s %d %s", kind, opts, runesStr(input))
+	c.record(op, len(input) > 0)
+	c.count("same-scanner-object-again")
+	fresh, st0 := tokenizeImpl(kind, opts, string(input))
+	var second, third []tk
+	st := safeCallT(5*time.Second, func() string {
+		t := newTokenizer(kind)
+		setOpts(t, opts)
+		sc := newScanner(string(input))
+		t.TokenizeStream(sc)
+		sc.Reset()
+		second = conv(t.TokenizeStream(sc))
+		sc.Reset()
+		t.SetReader(sc)
+		t.HasNextToken()
+		t.NextToken()
+		t.HasNextToken()
+		sc.Reset()
+		third = conv(t.TokenizeStream(sc))
+		return ""
+	})
+	if st != "" || st0 != "" {
+		if st != st0 {
+			c.fail(Failure{Kind: "oracle", Op: op, Impl: st, Spec: st0, Note: "tokenizer did not return normally"})
+		}
+		return
+	}
+	if !eqTks(second, fresh) || !eqTks(third, fresh) {
+		c.fail(Failure{Kind: "oracle", Op: op, Impl: showTks(second) + " / " + showTks(third), Spec: showTks(fresh),
+			Note: fmt.Sprintf("input %q read again from the SAME scanner object after Reset gives %s (second pass) / %s (after an abandoned pass); a new tokenizer gives %s", string(input), showTks(second), showTks(third), showTks(fresh))})
+	}
+}
+
 func propReconfig(c *Ctx) {
 	sets := [][]cfgOp{
 		{{k: "D", lo: '#', hi: '#', x: "s"}},
@@ -263,6 +298,11 @@ func propC05(c *Ctx) {
 				runHistoryCase(c, k, 127, [][]rune{a, b}, 2)
 				runHistoryCase(c, k, 0, [][]rune{a, b}, -1)
 				runHistoryCase(c, k, 78, [][]rune{a, b}, -2)
+			}
+		}
+		for _, in := range pool {
+			for _, o := range optSets {
+				runSameScanner(c, k, o, in)
 			}
 		}
 		// has-next interleavings
@@ -333,6 +373,12 @@ func replayC05(c *Ctx, op string) {
 		var o int
 		fmt.Sscanf(f[2], "%d", &o)
 		runHasNextCase(c, f[1], o, f[3], parseRunes(f[4]))
+	case "samesc":
+		if len(f) == 4 {
+			var o int
+			fmt.Sscanf(f[2], "%d", &o)
+			runSameScanner(c, f[1], o, parseRunes(f[3]))
+		}
 	case "rhist":
 		if len(f) == 5 {
 			var ops []cfgOp
